@@ -25,7 +25,7 @@ func init() {
 	simkit.Register(&simkit.Prop{
 		ID:   "C05",
 		Desc: "failed transactions (NeoVM faults, out of gas, native errors, deploy errors) leave only the ONG fee payer->governance, equal to the reported GasConsumed and never above the payer's balance",
-		Rule: "a run = one solo ledger plus a twin; 3 storage contracts deployed; up to 15 blocks of 1..4 transactions: NeoVM scripts built from fragments (calls of a deployed contract that put / delete / destroy storage or fault after the put, native ONG/ONT transfers, Contract.Create, 1-2 KiB padding) ending in THROW / bad opcode / stack underflow / division by zero / endless loop / call of a missing contract / Storage.Put without contract / unknown syscall / nothing, plain native invokes (good, unwitnessed, overdrawn, unknown method, malformed arguments), deploy transactions (new, existing, destroyed contract); gas price 0/1/500/2500, gas limit from 0 to generous, payer = bookkeeper or one of 4 accounts whose ONG balance is first set (by a preceding transfer) to 0, min-1, min, min+1, 2min-1, 2min, 3min+7 of the minimum fee or around the deploy cost. Every block is executed on the main ledger; then the twin executes the same block with every transaction that FAILED on the main ledger replaced by a plain ONG transfer payer->governance of the reported GasConsumed; the two state stores must then be equal (except the per-block bookkeeping keys, learnt by diffing an empty block). Blocks in which every transaction failed are in addition checked directly on the before/after dump. non-trivial = at least one failed transaction whose script wrote state before failing and at least one failed transaction charged a non-zero fee; distinct = distinct event-trace hash",
+		Rule: "a run = one solo ledger plus a twin; 3 storage contracts deployed; up to 15 blocks of 1..4 transactions: NeoVM scripts built from fragments (calls of a deployed contract that put / delete / destroy storage or fault after the put, native ONG/ONT transfers, Contract.Create, 1-2 KiB padding) ending in THROW / bad opcode / stack underflow / division by zero / endless loop / call of a missing contract / Storage.Put without contract / unknown syscall / nothing, plain native invokes (good, unwitnessed, overdrawn, unknown method, malformed arguments), deploy transactions (new, existing, destroyed contract); gas price 0/1/500/2500, gas limit from 0 to generous, payer = bookkeeper or one of 4 accounts whose ONG balance is first set (by a preceding transfer) to 0, min-1, min, min+1, 2min-1, 2min, 3min+7 of the minimum fee or around the deploy cost. Every block is executed on the main ledger; then the twin executes the same block with every transaction that FAILED on the main ledger replaced by a plain ONG transfer payer->governance of the reported GasConsumed; the stored record of a failed transaction may carry the fee transfer event and no other; the two state stores must then be equal (except the per-block bookkeeping keys, learnt by diffing an empty block). Blocks in which every transaction failed are in addition checked directly on the before/after dump. non-trivial = at least one failed transaction whose script wrote state before failing and at least one failed transaction charged a non-zero fee; distinct = distinct event-trace hash",
 		Real: []string{"core/store/ledgerstore (executeBlock, handleTransaction, HandleInvokeTransaction, HandleDeployTransaction, chargeCostGas, costInvalidGas, event store)", "smartcontract + NeoVM + Ontology.Native.Invoke, storage/contract services", "native ONT/ONG", "smartcontract/storage CacheDB + overlaydb + goleveldb on SimDisk"},
 		Stub: []string{"solo block producer (harness builds/signs blocks like consensus/solo)", "no transaction pool / validators: the ledger executes whatever the block contains (gas limits below the minimum included)", "wasm JIT (stub archive; no wasm transactions generated)"},
 		Assumptions: []string{
@@ -537,6 +537,14 @@ func (r *c05Run) runBlock(txs []*c05Tx) {
 			out = "FAIL"
 			nFailed++
 			failedLabels = append(failedLabels, x.label)
+			// the stored record of a failed transaction may tell of the fee transfer and of nothing else
+			for k, ev := range n.Notify {
+				if ev.ContractAddress != nutils.OngContractAddress || k > 0 {
+					c.Probe("failed_tx_record_checked")
+					r.soft("failed-tx-record-carries-events", x.label, "block %d tx %d (%s): failed (state %d) but its stored record carries %d events, event %d is from contract %s: %v", h, i, x.desc, n.State, len(n.Notify), k, ev.ContractAddress.ToHexString(), ev.States)
+					break
+				}
+			}
 		}
 		c.Logf("  %s [%s] payer=%s gasprice=%d gaslimit=%d => %s fee=%d", x.label, x.desc, x.payer.name, x.gasP, x.gasL, out, gas[i])
 	}
